@@ -19,7 +19,7 @@ RULE = (
     "screen); distinct = hash of both; non-trivial = the screen holds a control in some column and >=2 rows"
 )
 ASSUMPTIONS = ["the interaction sample type links through exp and the Bliss baseline: its viability is checked against its own documented formula and its mean must be 0 whenever a control is present"]
-REQUIRED = {"predictions_after_the_single_effects_were_updated_in_place": {"quick": 100, "thorough": 2500}, "whole_library_predictions": {"quick": 2, "thorough": 6}, "integer_typed_precisions": {"quick": 80, "thorough": 2000}, "partial_holder_helper_calls": {"quick": 200, "thorough": 3000}, "theta_screen_pairs": {"quick": 1500, "thorough": 40000}, "purity_checks": {"quick": 6000, "thorough": 150000}, "control_neutrality_rows": {"quick": 3000, "thorough": 80000}, "helper_checks": {"quick": 200, "thorough": 5000}, "large_screens": {"quick": 8, "thorough": 60}}
+REQUIRED = {"helper_runs_on_memoising_sample_types": {"quick": 40, "thorough": 1000}, "predictions_after_the_single_effects_were_updated_in_place": {"quick": 100, "thorough": 2500}, "whole_library_predictions": {"quick": 2, "thorough": 6}, "integer_typed_precisions": {"quick": 80, "thorough": 2000}, "partial_holder_helper_calls": {"quick": 200, "thorough": 3000}, "theta_screen_pairs": {"quick": 1500, "thorough": 40000}, "purity_checks": {"quick": 6000, "thorough": 150000}, "control_neutrality_rows": {"quick": 3000, "thorough": 80000}, "helper_checks": {"quick": 200, "thorough": 5000}, "large_screens": {"quick": 8, "thorough": 60}}
 N_PAIRS = {"quick": 4000, "thorough": 64000}
 
 
@@ -270,6 +270,27 @@ def run_shard(rec, tier, seed, shard, nshards):
                     want_v = np.array([math.fsum(va[:, e]) / T for e in range(data.size)])
                     want_m = np.array([math.fsum(ma[:, e]) / T for e in range(data.size)])
                     rec.check(kit.close(vavg, want_v, rel=1e-12) and kit.close(mavg, want_m, rel=1e-12), "C09/helpers/avg-not-the-mean", lambda: "averaged helper %r, exact mean %r (T=%d)" % (np.asarray(vavg)[:3].tolist(), want_v[:3].tolist(), T), w)
+                if kind == "sparse" and T >= 2 and rng.random() < 0.5:
+                    # user-defined sample types that remember what they predicted for a data set and hand the SAME array
+                    # back (memoised predictions): the helpers only read what they are handed
+                    memo_cls = type("MemoSample", (type(ths[0]),), {"predict_conditional_mean": _memo("predict_conditional_mean"), "predict_viability": _memo("predict_viability")})
+                    mh = ThetaHolder(n_thetas=T)
+                    memos = []
+                    for t_ in ths:
+                        mt = memo_cls(**{f_: getattr(t_, f_) for f_ in ("W", "W0", "V2", "V1", "V0", "alpha", "precision")})
+                        memos.append(mt)
+                        mh.add_theta(mt)
+                    try:
+                        first_m = [np.array(mt.predict_conditional_mean(data), copy=True) for mt in memos]
+                        first_v = [np.array(mt.predict_viability(data), copy=True) for mt in memos]
+                        for hname in ("predict_mean_avg", "predict_viability_avg", "predict_mean_all", "predict_viability_all"):
+                            getattr(MM, hname)(data, mh)
+                        rec.count("helper_runs_on_memoising_sample_types")
+                        still = all(np.array_equal(mt.predict_conditional_mean(data), a_) and np.array_equal(mt.predict_viability(data), b_) for mt, a_, b_ in zip(memos, first_m, first_v))
+                        rec.check(still, "C09/purity/helper-writes-into-what-a-sample-returned", "after the averaging / stacking helpers ran, a sample that memoises its predictions predicts something else for the same data: a helper wrote into the array a sample had returned", w)
+                        rec.check(kit.close(MM.predict_mean_avg(data, mh), want_m, rel=1e-12) if ok else True, "C09/helpers/avg-not-the-mean", "the average over memoising samples is not the exact mean", w)
+                    except Exception as e:
+                        rec.violation("C09/helpers/raise", "helpers on a memoising sample type raised %r" % (e,), w)
                 # a collection that holds fewer samples than it declares (a short run, a partial chain): every helper
                 # either refuses or returns one row per HELD sample and their exact mean - never padded rows
                 part = ThetaHolder(n_thetas=T + int(rng.integers(1, 4)))
@@ -385,6 +406,21 @@ def whole_library_screen(rec, tier, rng):
             small = [p for p in screen.plates if p.size == 37][0]
             rec.check(np.array_equal(np.asarray(th.predict_conditional_mean(small)), mean[np.asarray(small.selection_vector)]), "C09/rowwise/subset-differs-from-whole", "a 37-experiment plate of a %d-row screen (%d dimensions) predicts differently from the whole" % (n, D), w)
         del screen
+
+
+_MEMO = {}
+
+
+def _memo(name):
+    def f(self, data):
+        key = (name, id(self), id(data))
+        if key not in _MEMO or _MEMO[key][0] is not self or _MEMO[key][1] is not data:
+            if len(_MEMO) > 400:
+                _MEMO.clear()
+            _MEMO[key] = (self, data, getattr(super(type(self), self), name)(data))
+        return _MEMO[key][2]
+
+    return f
 
 
 def _mag(th):
